@@ -3,6 +3,7 @@ package main
 // execOp runs one operation of the line protocol against the real go-ntrip code.
 
 import (
+	"os"
 	"fmt"
 	"strconv"
 	"strings"
@@ -21,7 +22,15 @@ type opFn func(toks []string) *Obs
 
 var opTable = map[string]opFn{}
 
+// currentOpFile, when set, receives each op line before it is executed: if the code under test
+// kills the process (a panic in a goroutine it started cannot be recovered here), the check reads
+// the line back and has the crashing input.
+var currentOpFile string
+
 func execOp(op string) (obs *Obs) {
+	if currentOpFile != "" {
+		os.WriteFile(currentOpFile, []byte(op), 0o644)
+	}
 	toks := strings.Fields(op)
 	if len(toks) == 0 {
 		return &Obs{Line: "bad-op"}
